@@ -405,4 +405,7 @@ def run(repo, tier):
     res.floor('DTYPE-KEEP', 5)
     res.floor('A2', 40)
     res.exhaustive_rules = ['L1 over (public mutator x lazyproperty) of SegmentationImage', 'D3', 'COUPLED']
+    from .common import run_label_eq
+    if run_label_eq(repo, res, {'photutils.segmentation.core', 'photutils.segmentation.catalog'}) < 3:
+        raise AnalysisError('vanished anchor: per-label loops over (label, slices)')
     return res
